@@ -3,10 +3,12 @@
 import json,sys
 pid=sys.argv[1]; n=sys.argv[2] if len(sys.argv)>2 else ""
 taken=""
-try:
-    m=json.load(open(f"/verif/seeded/{pid}/meta.json"))
-    if n: taken="\nALREADY TAKEN (someone else already did this one - pick a DIFFERENT mechanism, in a different function if possible): "+m.get("summary","")[:600]+"\n"
-except Exception: pass
+for prev in ("", "b", "c"):
+    if not n or prev >= n: continue
+    try:
+        m=json.load(open(f"/verif/seeded/{pid}{prev}/meta.json"))
+        taken+="\nALREADY TAKEN (someone else already did this one - pick a DIFFERENT mechanism, in a different function if possible): "+m.get("summary","")[:600]+"\n"
+    except Exception: pass
 rec=[json.loads(l) for l in open('/verif/properties.jsonl') if json.loads(l)['id']==pid][0]
 for k in ('added_in_round','source'): rec.pop(k,None)
 wt=f"/tmp/seedwt-{pid}{n}"; out=f"/tmp/seed-out/{pid}{n}"
